@@ -9,7 +9,7 @@ from .core import (Ref, HObj, HList, HByteArray, HDict, HSet, VBytes, VStr, Buil
                    LambdaVal, PyRaise, ReturnSig, BreakSig, ContinueSig, PathEnd, ImpureAbort, Ctx)
 from .frontend import FuncInfo, ClassInfo, ModuleInfo, PKG
 
-MAX_LOOP = 5000
+MAX_LOOP = 600
 MAX_SYMBOLIC_TURNS = 80
 MAX_DEPTH = 60
 
@@ -944,7 +944,7 @@ class Interp:
                         raise PyRaise("AttributeError", "can't set attribute " + name)
                     self.call_function(p[1], [o, v], {})
                     return
-                self.ctx.mutate(o).fields[name] = v
+                self.ctx.mutate(o, name).fields[name] = v
                 return
         if isinstance(o, ClassInfo):
             if self.ctx.pure:
